@@ -2,7 +2,8 @@
    observation renderers of the negotiation family) *)
 From Coq Require Import List ZArith NArith String Bool.
 Import ListNotations.
-From Verif Require Import Common.V Common.Base Common.NegoText Common.NegoDigest Model.OfferShape.
+From Verif Require Import Common.V Common.Base Common.NegoText Common.NegoDigest Model.OfferShape
+  Model.OfferTrackDetails.
 Open Scope string_scope.
 
 Definition kind_Z (k : kind) : Z := match k with Audio => 1 | Video => 2 end.
@@ -50,3 +51,14 @@ Definition S (mid : option string) (m : mkind) (d : option dir) : sec :=
   {| sc_mid := mid; sc_media := m; sc_dir := d; sc_attrs := [] |}.
 Definition E (ra rv fa fv : bool) : engine :=
   {| rtx_audio := ra; rtx_video := rv; fec_audio := fa; fec_video := fv |}.
+
+(* ---------- suite tdetails: trackDetailsFromSDP on one m-section ---------- *)
+
+Definition V_td (t : tdetail) : V :=
+  VL [VS (td_mid t); VZ (kind_Z (td_kind t)); VS (td_stream t); VS (td_id t);
+      VLm VN (td_ssrcs t); VO VN (td_rtx t); VO VN (td_fec t); VLm VS (td_rids t)].
+
+Definition run_td (s : sec) : V := Vresult (VLm V_td) (track_details_sec s).
+
+Definition SA (mid : option string) (m : mkind) (d : option dir) (attrs : list (string * string)) : sec :=
+  {| sc_mid := mid; sc_media := m; sc_dir := d; sc_attrs := attrs |}.
